@@ -4,6 +4,7 @@ import json
 import numpy as np
 
 from harness.core import Machinery
+from checks import binding
 
 LEVEL = "model_checking"
 
@@ -19,7 +20,7 @@ def unconv(v):
 
 # ----------------------------------------------------------------- batches
 def batches(ctx, hyruns):
-    res = ctx.tlc("Batches", "MC_Batches_%s.cfg" % ctx.tier, workers=8, timeout=900)
+    res = ctx.tlc("Batches", "MC_Batches_%s.cfg" % ctx.tier, timeout=900)
     if res.violated:
         raise Machinery("Batches.tla: array_split model violates the contract")
     cases = res.printed()
@@ -79,10 +80,11 @@ def batches(ctx, hyruns):
     with open(path, "w") as f:
         for r in recs:
             f.write(json.dumps(r) + "\n")
-    res2 = ctx.tlc("BatchesTrace", "MC_BatchesTrace.cfg", workers=1, timeout=2400, heap="6g",
+    res2 = ctx.tlc("BatchesTrace", "MC_BatchesTrace.cfg", timeout=2400, heap="6g",
                    env={"TRACE_FILE": str(path)})
     if not res2.tuples("VALIDATED"):
         raise Machinery("BatchesTrace did not complete:\n" + res2.out[-2000:])
+    ctx.binding_demo("BatchesTrace", "MC_BatchesTrace.cfg", path, binding.batches, timeout=2400, heap="6g")
     for line in res2.tuples("REJECT"):
         parts = line.strip("<>").split(",")
         r = recs[int(parts[1]) - 1]
@@ -188,7 +190,8 @@ def replay_grid(ctx, hyruns, d, idx):
 
 
 def grid_spec_to_code(ctx, hyruns):
-    res = ctx.tlc("OptionGridDump", "MC_OptionGrid_%s.cfg" % ctx.tier, timeout=3000, heap="6g")
+    res = ctx.tlc("OptionGridDump", "MC_OptionGrid_%s.cfg" % ctx.tier, timeout=3000, heap="6g", coverage=True)
+    ctx.require_actions(res, ["Build", "SetKeyName", "ResetKeyNames", "ToDict", "FromDict"], "OptionGrid")
     if res.violated:
         raise Machinery("OptionGrid.tla violates its contract: %s" % res.violated)
     n = 0
@@ -261,10 +264,11 @@ def grid_code_to_spec(ctx, hyruns, ncases):
     with open(path, "w") as f:
         for r in recs:
             f.write(json.dumps(r) + "\n")
-    res = ctx.tlc("OptionGridTrace", "MC_OptionGridTrace.cfg", workers=1, timeout=2400,
+    res = ctx.tlc("OptionGridTrace", "MC_OptionGridTrace.cfg", timeout=2400,
                   env={"TRACE_FILE": str(path)})
     if not res.tuples("VALIDATED"):
         raise Machinery("OptionGridTrace did not complete:\n" + res.out[-2000:])
+    ctx.binding_demo("OptionGridTrace", "MC_OptionGridTrace.cfg", path, binding.optiongrid, timeout=2400)
     for line in res.tuples("REJECT"):
         parts = line.strip("<>").split(",")
         r = recs[int(parts[1]) - 1]
